@@ -113,5 +113,9 @@ def pauli(ind: int | str | list[int] | list[str], is_sparse: bool = False) -> np
     num_qubits = len(ind)
     pauli_mats = []
     for i in range(num_qubits):
-        pauli_mats.append(pauli(ind[i], is_sparse))
-    return tensor(pauli_mats)
+        pauli_mats.append(pauli(ind[i]))
+    # The Kronecker product is taken of the dense factors (`np.kron` does not multiply sparse arrays).
+    pauli_mat = tensor(pauli_mats)
+    if is_sparse:
+        pauli_mat = csr_array(pauli_mat)
+    return pauli_mat
